@@ -35,6 +35,8 @@ Variants == {"genuine",        \* produced and sealed by X itself, newer than an
                                \* claiming X, carrying exactly the time stamp of X's newest accepted signed frame
              "resealed-after-hop-learning", \* X became known to the victim only as a RELAY named in a hop record of a genuine
                                \* announcement (first contact through gossip); the ping is produced by the next deeper relay
+             "answered-by-another", \* a RESPONSE to an exchange the victim has open with X, made by another known router Z in
+                               \* its OWN name (genuinely signed by Z) and echoing the exchange's ping ID, which is readable on the wire
              "transit",        \* only TTL / flow flags changed (must stay effective)
              "first-genuine",  \* first contact: header key hashes to the (unknown) source address
              "first-badkey"}   \* first contact: header carries a key that does not hash to the source
@@ -81,6 +83,7 @@ Case(t, v, x, table) ==
   /\ (t = "announce" => x \in Peers)
   /\ ((FirstContact(v) \/ v = "resealed-after-hop-learning") <=> x = 5)
   /\ (x = 5 => t \in {"hello-req", "pong-req", "err-generic", "disconnect-down"})
+  /\ (v = "answered-by-another" => t = "hello-resp" /\ x \in Peers)
   /\ act' = [name |-> "case", type |-> t, variant |-> v, src |-> x, table |-> table,
              effect |-> Allowed(t, v, x, table)]
 
